@@ -487,16 +487,22 @@ def _compareDocumentPosition(self, other):
     sparents.reverse()
     oparents.reverse()
 
-    for i, sparent in enumerate(sparents):
-        for j, oparent in enumerate(oparents):
-            if sparent is oparent:
-                s = sparents[i+1]
-                o = oparents[j+1]
-                for item in sparent:
-                   if item is s:
-                       return Node.DOCUMENT_POSITION_FOLLOWING
-                   if item is o:
-                       return Node.DOCUMENT_POSITION_PRECEDING
+    # The two chains run from the top of the tree downwards and agree up
+    # to the lowest common ancestor; the order of the two branches below
+    # that node decides
+    common = -1
+    for sparent, oparent in zip(sparents, oparents):
+        if sparent is not oparent:
+            break
+        common += 1
+    if common >= 0:
+        s = sparents[common+1]
+        o = oparents[common+1]
+        for item in sparents[common]:
+            if item is s:
+                return Node.DOCUMENT_POSITION_FOLLOWING
+            if item is o:
+                return Node.DOCUMENT_POSITION_PRECEDING
 
     return Node.DOCUMENT_POSITION_DISCONNECTED
 
